@@ -54,6 +54,62 @@ def check_generated(job):
         return k, "unknown", {"err": "checker exception: " + traceback.format_exc()[-600:]}, time.time() - t0
 
 
+def const_family(tier):
+    """Constant-operand arithmetic at full widths: x op C with boundary constants C written as typed literals
+    (the documented literal form).  One run-time operand, so the multiplier miters are linear in x and close."""
+    fam = []
+    widths = (8, 16, 32) if tier == "quick" else (8, 16, 31, 32, 33, 64)
+    for n in widths:
+        M = 1 << n
+        ucs = sorted(set(c % M for c in (1, 2, 3, 5, M // 2 - 1, M // 2, M // 2 + 1, M - 1, M - 2, 0x9E3779B9, 2654435761, 0x80000000, 0xFFFF0001)))
+        for c in ucs:
+            for op, f in (("*", lambda a, c: a * c), ("+", lambda a, c: a + c), ("-", lambda a, c: a - c)):
+                if op == "*" and n >= 31 and bin(c).count("1") > 3:
+                    continue  # dense constant multipliers of 31 bits and more do not close in z3 within the budget
+                src = "package main\nfunc main(a, b uint%d) uint%d {\n\treturn (a %s uint%d(%d)) ^ b\n}\n" % (n, n, op, n, c)
+                fam.append(("const u%d %s %d" % (n, op, c), src, [n, n], (lambda ins, f=f, c=c, n=n: [f(ins[0], z3.BitVecVal(c, n)) ^ ins[1]])))
+        ics = sorted(set([-1, -2, -3, -(M // 2), M // 2 - 1, 3, -(M // 2) + 1]))
+        for c in ics:
+            for op, f in (("*", lambda a, c: a * c), ("+", lambda a, c: a + c), ("-", lambda a, c: a - c)):
+                if op == "*" and n >= 31 and bin(c % M).count("1") > 3:
+                    continue
+                src = "package main\nfunc main(a, b int%d) int%d {\n\treturn (a %s int%d(%d)) ^ b\n}\n" % (n, n, op, n, c)
+                fam.append(("const i%d %s %d" % (n, op, c), src, [n, n], (lambda ins, f=f, c=c, n=n: [f(ins[0], z3.BitVecVal(c % (1 << n), n)) ^ ins[1]])))
+    # wide constants that are multiples of 2^64 (their low 64 bits are zero)
+    for n in (128,):
+        for c in (1 << 64, 3 << 64, (1 << 127) + (1 << 64)):
+            for op, f in (("+", lambda a, c: a + c), ("-", lambda a, c: a - c)):
+                src = "package main\nfunc main(a, b uint%d) uint%d {\n\treturn (a %s uint%d(%d)) ^ b\n}\n" % (n, n, op, n, c)
+                fam.append(("const u%d %s %d" % (n, op, c), src, [n, n], (lambda ins, f=f, c=c, n=n: [f(ins[0], z3.BitVecVal(c, n)) ^ ins[1]])))
+    return fam
+
+
+def check_const(job):
+    name, resp, ws, timeout_ms = job
+    t0 = time.time()
+    try:
+        ref_fn = CONST_REFS[name]
+        if not resp.get("ok"):
+            return name, "compile-error", {"err": resp.get("err")}, time.time() - t0
+        ins = [z3.BitVec(nm, w) for nm, w in zip(("a", "b"), ws)]
+        bits = []
+        for v in ins:
+            bits += bv_bits(v)
+        out_bits = e2lib.output_bits(resp, circuit_bits(resp, bits))
+        ref_bits = []
+        for r in ref_fn(ins):
+            ref_bits += bv_bits(r)
+        st, det = miter(out_bits, ref_bits, [], timeout_ms, ins, budget_s=45)
+        det["gates"] = len(resp["gates"])
+        return name, st, det, time.time() - t0
+    except Exception:
+        import traceback
+        return name, "unknown", {"err": "checker exception: " + traceback.format_exc()[-600:]}, time.time() - t0
+
+
+CONST_REFS = {}
+
+
 def main():
     t0 = time.time()
     nprog = int(os.environ.get("VERIF_C03_N", "150" if tier == "quick" else "1000"))
@@ -112,6 +168,56 @@ def main():
             r = ex.req({"cmd": "compile", "src": src, "sizes": [], "inputs": inp, "nocirc": True})
             if r.get("ok") and r.get("results") != exp:
                 kf_lines.append("KNOWN-FINDING: property=%s %s (witness: inputs %s give %s, documented meaning %s)" % (PROP, k["what"], inp, r.get("results"), exp))
+
+    # ---- (c) constant-operand family
+    fam = const_family(tier)
+    cjobs, csrc = [], {}
+    for name, src, ws, ref in fam:
+        CONST_REFS[name] = ref
+        csrc[name] = src
+        cjobs.append((name, ex.req({"cmd": "compile", "src": src, "sizes": []}), ws, timeout_ms))
+    cres = []
+    with mp.Pool(min(16, os.cpu_count() or 4)) as pool:
+        for r in pool.imap_unordered(check_const, cjobs, chunksize=2):
+            cres.append(r)
+    c_unsat = c_unknown = c_sat = 0
+    c_excluded = []
+    for name, st, det, dt in sorted(cres):
+        if st == "unsat":
+            c_unsat += 1
+            continue
+        if st == "unknown":
+            c_unknown += 1
+            c_excluded.append("%s: %s" % (name, det.get("err") or det.get("reason") or "solver unknown"))
+            continue
+        if st == "sat":
+            m = det["model"]
+            inputs = [str(m.get("a", 0)), str(m.get("b", 0))]
+            nat = ex.req({"cmd": "compile", "src": csrc[name], "sizes": [], "inputs": inputs, "nocirc": True})
+            ws = [w for n2, s2, w, r2 in fam if n2 == name][0]
+            vals = [z3.BitVecVal(int(v), w) for v, w in zip(inputs, ws)]
+            exp = [str(z3.simplify(r).as_long()) for r in CONST_REFS[name](vals)]
+            if not (nat.get("ok") and nat.get("results") != exp):
+                inconcl.append("counterexample did not reproduce natively: %s inputs %s" % (name, inputs))
+                continue
+            c_sat += 1
+            what = "constant-operand program [%s]: inputs a=%s b=%s: real Compute gives %s, documented meaning %s" % (name, inputs[0], inputs[1], nat.get("results"), exp)
+            cex = {"property": PROP, "program": csrc[name], "inputs": inputs, "expected": exp, "native": nat.get("results"),
+                   "replay_request": {"cmd": "compile", "src": csrc[name], "sizes": [], "inputs": inputs, "nocirc": True}}
+        else:
+            what = "constant-operand program [%s]: %s: %s" % (name, st, det.get("err"))
+            cex = {"property": PROP, "program": csrc[name], "error": det.get("err"), "expected": None,
+                   "replay_request": {"cmd": "compile", "src": csrc[name], "sizes": [], "nocirc": True}}
+        km = [k for k in known if k["key"] in what]
+        if km:
+            kf_lines.append("KNOWN-FINDING: property=%s %s (%s)" % (PROP, km[0]["what"], what[:200]))
+            continue
+        p = os.path.join(e2lib.OUT, PROP, "cex-%d.json" % cexn)
+        cexn += 1
+        json.dump(cex, open(p, "w"), indent=1)
+        viol += 1
+        if viol <= 12:
+            lines += ["VIOLATION property=%s replay=%s" % (PROP, p), "  " + what[:400]]
 
     # ---- (b) generated programs
     jobs = []
@@ -180,19 +286,21 @@ def main():
     ex.close()
     wall = time.time() - t0
     cov = {
-        "programs": nprog + (len(files) - len(skipped)),
+        "programs": nprog + len(fam) + (len(files) - len(skipped)),
         "disagreements_checked": n_sat + n_err + (nvec - nvec_ok),
         "samples": samples or [{"note": "no generated program closed"}],
         "explanation": "(b) decides: each generated program is compiled by the real compiler (compiler.New(params).Compile) and the emitted circuit is proved equal, for ALL inputs, "
                        "to a z3 reference term built from the same AST that printed the source; (a) runs the repository's own @Test oracle on every shipped annotated program "
                        "(concrete vectors, exhaustive over the shipped set)",
+        "constant_operand_programs": len(fam), "constant_operand_unsat": c_unsat, "constant_operand_sat": c_sat, "constant_operand_excluded_miter_did_not_close": c_excluded[:20],
         "generated_programs": nprog, "generated_unsat": n_unsat, "generated_sat": n_sat, "generated_unknown": n_unknown, "generated_compile_errors": n_err,
         "grammar_features_exercised": feats,
         "programs_rejected_by_the_compiler": rejected[:10],
         "shipped_test_files": len(files) - len(skipped), "shipped_vectors": nvec, "shipped_vectors_ok": nvec_ok, "skipped_files": skipped,
         "solver_queries": queries, "solver": "z3 " + z3.get_version_string(),
         "bounds": ["%d generated programs from seed %d, statement depth <= 3, expression depth <= 3, <= 2 helper functions" % (nprog, SEED),
-                   "types bool, int/uint N with N in {1,2,3,7,8,9,16,31,32,33,63,64,65,127,128,129,130}; * / %% only for N <= %d" % (8 if tier == "quick" else 10),
+                   "types bool, int/uint N with N in {1,2,3,7,8,9,16,31,32,33,63,64,65,127,128,129,130}; * / %% with two run-time operands only for N <= %d" % (8 if tier == "quick" else 10),
+                   "constant-operand family: x op C ^ y for op in * + -, C a typed boundary literal, widths 8,16,32 (thorough: 31,33,64); constant multipliers of 31 bits and more only with at most 3 set bits, plus uint128 +- multiples of 2^64",
                    "per-query timeout %d s" % (timeout_ms // 1000)],
         "outside_the_claim": ["programs outside the generator grammar (strings, pointers, make/copy, builtins, library packages) beyond what the shipped @Test programs touch",
                               "untyped literals mixed with intN variables (meaning not documented)", "the compiler front end as code (it is executed, not encoded)",
